@@ -3,6 +3,7 @@ package c07
 import (
 	"fmt"
 	"sort"
+	"strings"
 	"sync"
 )
 
@@ -1023,6 +1024,65 @@ func buildJobs(thorough bool) []Job {
 				}})
 			}
 		}
+	}
+	// operands written as bare literals, one observable operand at a time, every
+	// statement executed TWICE: what an operator does with an operand must not
+	// depend on the other operands being spelled as constants, nor on the node
+	// having been evaluated before
+	plainable := func(l *Node) bool {
+		return l.T == "leaf" && !l.failing() && (l.Probe == "pi" || l.Probe == "ps" || l.Probe == "pb" || l.Probe == "pn")
+	}
+	maskVariants := func(mk func() *Node, class string, emit func(*Node, string)) {
+		root := mk()
+		var ls []*Node
+		root.leaves(&ls)
+		for j := range ls {
+			if !plainable(ls[j]) {
+				continue
+			}
+			r2 := mk()
+			var l2 []*Node
+			r2.leaves(&l2)
+			n := 0
+			for i := range l2 {
+				if i != j && plainable(l2[i]) {
+					l2[i].Plain = true
+					n++
+				}
+			}
+			if n == 0 {
+				continue
+			}
+			emit(&Node{T: "twice", Kids: []*Node{r2}}, class)
+		}
+	}
+	isOperator := func(t *Tmpl) bool {
+		switch t.Fam {
+		case "binary-operator", "ternary", "nil-coalescing", "unary", "in", "len", "list-literal", "index", "member":
+			return true
+		}
+		return strings.HasPrefix(t.Fam, "logic-") || strings.HasPrefix(t.Fam, "slice-")
+	}
+	for i, t := range ts {
+		if !isOperator(t) || t.Res == 0 {
+			continue
+		}
+		t := t
+		jobs = append(jobs, Job{Space: "literal-operands-twice", Sample: i%61 == 0, Gen: func(emit func(*Node, string)) {
+			maskVariants(func() *Node { return t.inst(nil) }, t.Fam+"/literal-operands-twice", emit)
+			for k, s := range t.Slots {
+				if s.Accept == "" {
+					continue
+				}
+				for _, u := range ts {
+					if !isOperator(u) || !accepts(s, u.Res) {
+						continue
+					}
+					k, u := k, u
+					maskVariants(func() *Node { return t.inst(map[int]*Node{k: u.exprInst()}) }, t.Fam+"/literal-operands-twice", emit)
+				}
+			}
+		}})
 	}
 	return jobs
 }
